@@ -29,6 +29,9 @@ pub struct Step {
     pub spawned: Vec<(String, u8)>,
     /// the same tasks in the order in which the coordinator handed them to the pool
     pub spawned_order: Vec<(String, u8)>,
+    /// `done_count` / `total_count` of the coordinator when this delivery was chosen
+    pub done: usize,
+    pub total: usize,
 }
 
 #[derive(Default)]
@@ -48,6 +51,7 @@ pub struct Inner {
     pub receives: usize,
     /// more deliveries than this in one run is reported (the model proves at most 2 per file)
     pub max_steps: usize,
+    pub last_progress: (usize, usize),
 }
 
 pub type KeyFn = Box<dyn Fn(&str, u8) -> (u8, usize, u8) + Send + Sync>;
@@ -123,6 +127,10 @@ impl Controller for Ctl {
         }
         self.cv.notify_all();
     }
+    fn progress(&self, done: usize, total: usize) {
+        let mut g = self.m.lock().unwrap();
+        g.last_progress = (done, total);
+    }
     fn main_yield(&self) {
         let mut g = self.m.lock().unwrap();
         if g.free_run {
@@ -174,11 +182,14 @@ impl Controller for Ctl {
         let c = if pos < g.choices.len() { g.choices[pos] % en.len() } else { 0 };
         g.pos += 1;
         let id = en[c].0;
+        let lp = g.last_progress;
         g.steps.push(Step {
             enabled: en.iter().map(|e| e.1.clone()).collect(),
             choice: c,
             spawned: vec![],
             spawned_order: vec![],
+            done: lp.0,
+            total: lp.1,
         });
         g.permitted = Some(id);
         self.cv.notify_all();
